@@ -37,9 +37,19 @@ def gen_assets(rng, maxn=4, big=False):
 
 def gen_wallet(rng, n, addr="k0", ada_only=False, coin_lo=1_500_000, coin_hi=60_000_000, prefix="u"):
     out = []
+    # 40% of the wallets hold several outputs of the same transaction(s), with indices on both sides of 10 / 24 / 100 /
+    # 256 / 1000 (ordering by (txid, index) vs by text or by encoded bytes differs exactly there)
+    shared = [txid(rng) for _ in range(rng.choice([1, 1, 2]))] if rng.random() < 0.4 else None
+    used = set()
     for i in range(n):
         coin = rng.choice([rng.randint(coin_lo, coin_hi), 2_000_000, 5_000_000, 10_000_000, 100_000_000])
-        u = {"id": f"{prefix}{i}", "txid": txid(rng), "ix": rng.choice([0, 0, 1, 2, 23, 24, 255, 256]), "addr": addr, "coin": coin}
+        if shared and rng.random() < 0.8:
+            t = rng.choice(shared)
+            ix = rng.choice([j for j in (0, 1, 2, 9, 10, 11, 23, 24, 99, 100, 101, 255, 256, 999, 1000, 65535, 65536) if (t, j) not in used])
+        else:
+            t, ix = txid(rng), rng.choice([0, 0, 1, 2, 23, 24, 255, 256])
+        used.add((t, ix))
+        u = {"id": f"{prefix}{i}", "txid": t, "ix": ix, "addr": addr, "coin": coin}
         if not ada_only and rng.random() < 0.5:
             u["assets"] = gen_assets(rng)
         out.append(u)
@@ -166,3 +176,37 @@ def gen_value_scenario(rng, ada_only=None, plain=False):
 def utxo_map(sc):
     return {(u["txid"], int(u["ix"])): (int(u["coin"]), {(p if isinstance(p, str) else S.script_hash(S.any_script(p)).payload.hex(), n): int(q)
                                                          for p, n, q in u.get("assets", [])}) for u in sc["utxos"]}
+
+
+def gen_multiround(rng):
+    """every UTxO carries ADA and the same token(s) in amounts comparable to the request (about a third of the wallet):
+    the randomized strategy then runs one improvement round per asset over the same few candidates (repeated picks,
+    bookkeeping across rounds).  Selector configuration through build.selectors."""
+    n = rng.randint(4, 9)
+    pol = rng.choice(TOKEN_POLICIES).hex()
+    names = [x.hex() for x in rng.sample(list(TOKEN_NAMES), rng.choice([1, 1, 2]))]
+    utxos = []
+    coins = rng.choice([[2_000_000, 3_000_000, 4_000_000, 5_000_000], [2_000_000, 3_000_000, 5_000_000, 12_000_000, 50_000_000]])
+    for i in range(n):
+        u = {"id": f"u{i}", "txid": txid(rng), "ix": rng.choice([0, 1, 2]), "addr": "k0", "coin": rng.choice(coins)}
+        a = [[pol, nm, str(rng.randint(1, 12))] for nm in names if rng.random() < 0.8]
+        if a:
+            u["assets"] = a
+        utxos.append(u)
+    ids = [u["id"] for u in utxos]
+    sc = {"params": dict(rng.choice(PARAM_SETS[:2])), "utxos": utxos, "address_utxos": {"k0": ids}, "ops": [], "build": {}}
+    if rng.random() < 0.5:
+        sc["ops"].append({"op": "add_input_address", "a": "k0"})
+    else:
+        for u in ids:
+            sc["ops"].append({"op": "potential", "u": u})
+    total = sum(u["coin"] for u in utxos)
+    held = wallet_assets(utxos)
+    o = {"op": "add_output", "addr": "k1", "coin": max(total // rng.choice([4, 5, 6, 8]), 1_500_000)}
+    if held:
+        o["assets"] = [[p, nme, str(max(q // rng.choice([3, 4, 5]), 1))] for (p, nme), q in held.items()]
+    sc["ops"].append(o)
+    sel = rng.choice([[["random"]], [["random"], ["largest"]],
+                      [["random-stream", [rng.choice([0, 0, 1, 2, rng.randrange(n)]) for _ in range(40)]]]])
+    sc["build"] = {"change": "k0", "merge_change": False, "pyseed": rng.randrange(2**32), "selectors": sel}
+    return sc
